@@ -38,6 +38,9 @@ type seCase struct {
 	Unterminated bool      `json:"unterminated"` // the last line has no newline
 	StdoutBytes  int       `json:"stdout_bytes"`
 	StdoutLines  []int     `json:"stdout_lines"` // line lengths used round-robin
+	// StderrFirst: the plugin writes its whole stderr output before it prints the handshake line (and
+	// blocks there if nobody reads its stderr meanwhile)
+	StderrFirst bool `json:"stderr_first"`
 }
 
 const tsOK = "2026-01-02T15:04:05.000000Z"
@@ -161,8 +164,7 @@ func runStderrCase(c seCase, tmp string) map[string]interface{} {
 			r.Exit()
 			return
 		}
-		fmt.Fprintf(r.StdoutW(), "1|1|unix|%s|netrpc|\n", f.path)
-		go func() {
+		writeStderr := func() {
 			defer close(stderrDone)
 			// a few writes of arbitrary sizes, not line aligned
 			for off := 0; off < len(stream); {
@@ -175,7 +177,14 @@ func runStderrCase(c seCase, tmp string) map[string]interface{} {
 				}
 				off += n
 			}
-		}()
+		}
+		if c.StderrFirst {
+			writeStderr()
+		}
+		fmt.Fprintf(r.StdoutW(), "1|1|unix|%s|netrpc|\n", f.path)
+		if !c.StderrFirst {
+			go writeStderr()
+		}
 		go func() {
 			defer close(stdoutDone)
 			written := 0
@@ -206,6 +215,7 @@ func runStderrCase(c seCase, tmp string) map[string]interface{} {
 	out := map[string]interface{}{"panic": false}
 	cl := plugin.NewClient(cfg)
 	_, err := cl.Start()
+	out["start_ok"] = err == nil
 	if err != nil {
 		out["start_err"] = err.Error()
 	}
